@@ -34,8 +34,20 @@ ASSUME_CODEC = ["the Go projector (harness/proj.go) maps library values to the s
                 "TLC evaluates the TLA+ reference codec correctly; the reference codec follows RFC 7296 / 3748 / 4187 / 5448"]
 
 
+def gen_obj(kind, prop):
+    """Histories of one long-lived object (ObjHist.tla) of the given kind, attributed to the property of the calling check."""
+    return dict(module="Gen_ObjHist", name="objhist_" + kind, trace=False, invariants=("Sound", "Emit"),
+                constants=dict(Kind='"%s"' % kind, PropId='"%s"' % prop, MaxOps=lambda ctx: (5 if kind != "ikesa" else 5) if ctx.thorough else 4))
+
+
+MC_OBJ = dict(module="ObjHist", name="objhist_design", constants=dict(NVals=3, MaxOps=6, CleanLoad=True), invariants=("AsFresh",),
+              what="history independence of long-lived objects: every use sees exactly the value of the last load")
+MC_OBJ_KNOB = dict(module="ObjHist", name="objhist_knob_CleanLoad", expect="violate", constants=dict(NVals=3, MaxOps=6, CleanLoad=False), invariants=("AsFresh",),
+                   what="sanity: if a load keeps what an earlier load left, TLC must find a use that sees it")
+
+
 def run_c03(ctx, C):
-    codec_common(ctx, C, [GEN_CODEC], [DRV_CODEC])
+    codec_common(ctx, C, [GEN_CODEC, gen_obj("msg", "C03")], [DRV_CODEC], mcs=[MC_OBJ, MC_OBJ_KNOB])
     C.stage_s3(ctx)
 
 
@@ -48,7 +60,7 @@ GEN_LIBERTY = dict(module="Gen_Liberty", name="liberty")
 
 
 def run_c05(ctx, C):
-    codec_common(ctx, C, [GEN_CODEC, GEN_LIBERTY], [DRV_CODEC])
+    codec_common(ctx, C, [GEN_CODEC, GEN_LIBERTY, gen_obj("msg", "C05")], [DRV_CODEC], mcs=[MC_OBJ, MC_OBJ_KNOB])
     C.stage_s3(ctx)
 
 
@@ -72,18 +84,17 @@ def run_c19(ctx, C):
 
 
 GEN_HEAP = dict(module="Gen_Heap", name="heap", constants=dict(MaxOps=lambda ctx: 5 if ctx.thorough else 4), trace=False)
-MC_HEAP = dict(module="HeapLife", name="heap_design", constants=dict(CopyOnDecode=True, EncodeFresh=True, ProtectKeepsPayloads=True, MaxOps=6),
-               invariants=("DecodedStable", "EncodePure", "EncodeDeterministic", "ProtectFootprint"),
-               what="ownership model: decode copies, encode returns a fresh buffer, protect keeps the caller's payload objects")
-MC_HEAP_KNOBS = [dict(module="HeapLife", name="heap_knob_" + k, expect="violate",
-                      constants=dict(dict(CopyOnDecode=True, EncodeFresh=True, ProtectKeepsPayloads=True, MaxOps=6), **{k: False}),
-                      invariants=("DecodedStable", "EncodePure", "EncodeDeterministic", "ProtectFootprint"),
+HEAP_KNOBS = dict(CopyOnDecode=True, EncodeFresh=True, ProtectKeepsPayloads=True, OutputsDistinct=True, EncodeLeavesInput=True, MaxOps=6)
+HEAP_INVS = ("DecodedStable", "EncodePure", "EncodeDeterministic", "ProtectFootprint", "HeldOutputsIntact", "InputOnlyByCaller")
+MC_HEAP = dict(module="HeapLife", name="heap_design", constants=HEAP_KNOBS, invariants=HEAP_INVS,
+               what="ownership model: decode copies, encode returns a fresh buffer distinct from all earlier ones and never writes the receive buffer, protect keeps the caller's payload objects")
+MC_HEAP_KNOBS = [dict(module="HeapLife", name="heap_knob_" + k, expect="violate", constants=dict(HEAP_KNOBS, **{k: False}), invariants=HEAP_INVS,
                       what="sanity: with mechanism %s removed TLC must find a counterexample (the invariants are not vacuous)" % k)
-                 for k in ("CopyOnDecode", "EncodeFresh", "ProtectKeepsPayloads")]
+                 for k in ("CopyOnDecode", "EncodeFresh", "ProtectKeepsPayloads", "OutputsDistinct", "EncodeLeavesInput")]
 
 
 def run_c20(ctx, C):
-    codec_common(ctx, C, [GEN_HEAP, GEN_EAP_UNKNOWN], [], mcs=[MC_HEAP] + MC_HEAP_KNOBS, traces=())
+    codec_common(ctx, C, [GEN_HEAP, GEN_EAP_UNKNOWN, gen_obj("msg", "C20")], [], mcs=[MC_HEAP] + MC_HEAP_KNOBS, traces=())
 
 
 GEN_SK = dict(module="Gen_SK", name="sk", constants=dict(OnlySeq=False))
@@ -123,7 +134,7 @@ GEN_HIST_LONG = dict(module="Gen_Histories", name="histories_long", constants=di
 
 
 def run_c17(ctx, C):
-    codec_common(ctx, C, [GEN_HIST, GEN_HIST_LONG, GEN_SK_SEQ], [],
+    codec_common(ctx, C, [GEN_HIST, GEN_HIST_LONG, GEN_SK_SEQ, gen_obj("ikesa", "C17")], [],
                  mcs=[MC_SK, mc_sk_knob("ResetBeforeMac"), mc_sk_knob("ResetPerPrfBlock")], traces=())
 
 
@@ -134,7 +145,7 @@ MC_SALIFE = dict(module="SALife", name="salife", constants=dict(MaxChildren=3, F
 
 
 def run_c07(ctx, C):
-    codec_common(ctx, C, [GEN_KEYS], [], mcs=[MC_SALIFE], traces=())
+    codec_common(ctx, C, [GEN_KEYS, gen_obj("ikesa", "C07")], [], mcs=[MC_SALIFE, MC_OBJ, MC_OBJ_KNOB], traces=())
 
 
 GEN_CHILD = dict(module="Gen_Child", name="child", constants=dict(N=lambda ctx: 120 if ctx.thorough else 48), trace=False)
@@ -142,7 +153,7 @@ GEN_DH = dict(module="Gen_DH", name="dh", trace=False, replay_workers=16)
 
 
 def run_c08(ctx, C):
-    codec_common(ctx, C, [GEN_CHILD, GEN_KEYS, GEN_HIST], [], mcs=[MC_SALIFE, MC_SK, mc_sk_knob("ResetPerPrfBlock")], traces=())
+    codec_common(ctx, C, [GEN_CHILD, GEN_KEYS, GEN_HIST, gen_obj("ikesa", "C08")], [], mcs=[MC_SALIFE, MC_SK, mc_sk_knob("ResetPerPrfBlock"), MC_OBJ], traces=())
 
 
 def run_c09(ctx, C):
@@ -186,7 +197,7 @@ GEN_AKAHIST = dict(module="Gen_AkaHist", name="akahist", constants=dict(MaxOps=l
 
 
 def run_c14(ctx, C):
-    codec_common(ctx, C, [GEN_EAP, GEN_AKAHIST], [DRV_EAP], traces=("Trace_Codec",))
+    codec_common(ctx, C, [GEN_EAP, GEN_AKAHIST, gen_obj("eap", "C14")], [DRV_EAP], mcs=[MC_OBJ, MC_OBJ_KNOB], traces=("Trace_Codec",))
     C.stage_s3(ctx)
 
 
